@@ -43,6 +43,7 @@ def strategy_(draw, tier):
     prog = draw(gen.programs(cfg))
     opts = {"additional_properties": chance(draw, 0.3), "fall_back_on_default": False,
             "aliaser": pick(draw, ["id", "id", "camel", "pfx"]), "coerce": False, "all_refs": pick(draw, [None, True, False])}
+    tdcase.draw_root_schema(draw, prog, opts)
     n = draw(st.integers(5, 12))
     data = []
     for _ in range(n):
@@ -82,6 +83,8 @@ def has_unique_constraint(prog) -> bool:
 
 def schema_for(tp, opts, kw):
     skw = {"additional_properties": kw["additional_properties"], "aliaser": kw["aliaser"]}
+    if kw.get("schema") is not None:
+        skw["schema"] = kw["schema"]  # the per-call schema of the root
     if opts.get("all_refs") is not None:
         skw["all_refs"] = opts["all_refs"]
     return deserialization_schema(tp, **skw)
@@ -156,9 +159,10 @@ def _evaluate(case, ctx, b, prog, opts):
             ctx.sample({"type": b.source.split("ROOT = ")[-1].strip(), "options": opts, "datum": d, "deserialize_accepts": impl,
                         "schema_keywords": sorted(jsoracle.keywords(schema))[:12]})
         if impl != sch:
-            lt, ld, lc = localize(b, prog, prog["root"], d, None, kw, opts, sets)
+            skw = tdcase.sub_kwargs(kw)  # localisation below the root: the per-call schema becomes a constraint of the node
+            lt, ld, lc = localize(b, prog, prog["root"], d, opts.get("root_schema"), skw, opts, sets)
             ltp = b.typeof(tdcase.wrap_c(lt, lc))
-            lschema = schema_for(ltp, opts, kw)
+            lschema = schema_for(ltp, opts, skw)
             if sets:
                 lschema = jsoracle.strip_keyword(lschema, "uniqueItems")
             kwd = jsoracle.first_error_keyword(jsoracle.validator(lschema), ld) if impl else None
@@ -189,7 +193,7 @@ def _evaluate(case, ctx, b, prog, opts):
                         sig.pop("additional_properties", None)
             if lk["k"] == "map" and not impl and isinstance(ld, dict):
                 ktp = b.typeof(lk["key"])
-                if any(accepts(ktp, key, kw) is False for key in ld):
+                if any(accepts(ktp, key, skw) is False for key in ld):
                     sig["cause"] = "key_constraint"
             ctx.violation(sig, {"prog": prog, "opts": opts, "data": [item]},
                           f"deserialize {'accepts' if impl else 'rejects'}, schema {'accepts' if sch else 'rejects'}; localised at "
